@@ -6,3 +6,4 @@ import Sessions.Drf.Main
 import Sessions.Codec.GobProgram
 import Sessions.Spike.Hist
 import Sessions.Proofs.Inv.All
+import Sessions.Proofs.Local.All
